@@ -469,6 +469,18 @@ def ring_design(v, thorough, deadlock_family):
                 raise Infra("the Ring specification with deviation %s is not refuted by TLC: the configuration is vacuous" % dev)
 
 
+def ring_edge(v, own):
+    """The guards of the Ring specification at byte granularity (RingEdge): exactly enough / one byte short."""
+    r = core.cached_tlc("ringedge", "RingEdge", "SPECIFICATION Spec\nCONSTANTS Size = 16384\nINVARIANTS Boundary Emit\n", workers=1, timeout=300)
+    v.tlc("RingEdge", r)
+    cases = core.behaviours(r.lines)
+    res = core.merge(core.run_sharded(["ringedge"], cases, timeout=900))
+    if res.get("counts", {}).get("infra"):
+        raise Infra("ringedge harness: %s" % res.get("notes")[:2])
+    account(v, res, "guards-at-byte-granularity", {"waiting_cases": res.get("counts", {}).get("waiting_cases", 0)}, own=own)
+    v.cov["distinct_nontrivial"] += len(cases)
+
+
 def ring_check(pid, tier):
     v = Verdict(pid, tier)
     thorough = tier == "thorough"
@@ -502,6 +514,7 @@ def ring_check(pid, tier):
         for n in res.get("notes", [])[:5]:
             v.notes.append(n)
     v.cov["diverged_foreign"] = foreign
+    ring_edge(v, {pid})
     return v, thorough
 
 
@@ -807,7 +820,7 @@ def c02(tier):
 
 @check("C07")
 def c07(tier):
-    return broker_check("C07", tier, [("SubsSpec", "cover", 5, 6, "mockSuccess"), ("SubsSpec", "paths", 2, 3, "mockSuccess"), ("SubsSpec", "cover", 4, 5, "mockSuccess", 1)], {"C07", "C01", "C08"},
+    return broker_check("C07", tier, [("SubsSpec", "cover", 5, 6, "mockSuccess"), ("SubsSpec", "paths", 2, 3, "mockSuccess"), ("SubsSpec", "cover", 4, 5, "mockSuccess", 1), ("SubsLastSpec", "paths", 5, 6, "mockSuccess")], {"C07", "C01", "C08"},
                         "configuration subs: SUBSCRIBE requests with 1..9 filters incl. invalid filters and QoS 3, two packet ids, UNSUBSCRIBE lists of 1..9, "
                         "probe publishes from a second client; SUBACK/UNSUBACK bytes and subsequent deliveries compared.", frag_item=1)
 
@@ -1103,6 +1116,8 @@ def fanin_validate(v, pid, tier):
 def c17(tier):
     v = Verdict("C17", tier)
     fanin_validate(v, "C17", tier)
+    # packets stay whole only if the ring never hands out room that still holds unsent bytes: its guards to the byte
+    ring_edge(v, {"C14"})
     v.cov["rule"] = ("recorded runs of a real broker with 2-4 raw publishers + Server.Publish, 1-2 shared subscribers, 16 KiB rings, payload sizes that make the outgoing ring wrap "
                      "mid-packet, QoS 0/1/2, plus retained rewriting and subscription churn; every enq hook event (under the write mutex, before the ring commit) and every packet "
                      "strictly parsed by a client is one event; TLC validates the log against OutStreamTrace (whole packets: each received packet is the head of the connection's "
